@@ -25,15 +25,15 @@ type JV struct {
 // ---- strings
 
 var runeClasses = []func(r *rand.Rand) rune{
-	func(r *rand.Rand) rune { return rune(0x20 + r.Intn(0x5f)) },                 // printable ASCII
-	func(r *rand.Rand) rune { return rune(0x20 + r.Intn(0x5f)) },                 // (weighted)
-	func(r *rand.Rand) rune { return rune(r.Intn(0x20)) },                        // C0 controls
+	func(r *rand.Rand) rune { return rune(0x20 + r.Intn(0x5f)) }, // printable ASCII
+	func(r *rand.Rand) rune { return rune(0x20 + r.Intn(0x5f)) }, // (weighted)
+	func(r *rand.Rand) rune { return rune(r.Intn(0x20)) },        // C0 controls
 	func(r *rand.Rand) rune { return pick(r, []rune{'"', '\\', '/', 0x7f, '<', '>', '&'}) },
-	func(r *rand.Rand) rune { return rune(0x80 + r.Intn(0x780)) },                // 2-byte UTF-8
-	func(r *rand.Rand) rune { return rune(0x800 + r.Intn(0xd000-0x800)) },        // BMP below surrogates
-	func(r *rand.Rand) rune { return rune(0xe000 + r.Intn(0x2000)) },             // U+E000..U+FFFF (sorts after supplementary in UTF-16)
+	func(r *rand.Rand) rune { return rune(0x80 + r.Intn(0x780)) },         // 2-byte UTF-8
+	func(r *rand.Rand) rune { return rune(0x800 + r.Intn(0xd000-0x800)) }, // BMP below surrogates
+	func(r *rand.Rand) rune { return rune(0xe000 + r.Intn(0x2000)) },      // U+E000..U+FFFF (sorts after supplementary in UTF-16)
 	func(r *rand.Rand) rune { return pick(r, []rune{0x2028, 0x2029, 0xfeff, 0xfffd, 0xffff, 0xfb33}) },
-	func(r *rand.Rand) rune { return rune(0x10000 + r.Intn(0x100000)) },          // supplementary planes
+	func(r *rand.Rand) rune { return rune(0x10000 + r.Intn(0x100000)) }, // supplementary planes
 	func(r *rand.Rand) rune { return pick(r, []rune{0x1f600, 0x10000, 0x10ffff, 0x1d11e}) },
 }
 
